@@ -43,6 +43,8 @@ PROFILES = {
     "imm3": prof("MC_Focus", "MovesImm", 3, srcs=[1, 6]),
     "imm4": prof("MC_Focus", "MovesImm", 4, srcs=[1]),
     "fn1": prof("MC_Fn", "MovesFn", 1, srcs=[9], allow_undef=True),
+    "str1": prof("MC_Fn", "MovesStr", 1, srcs=[10], allow_undef=True),
+    "cast1": prof("MC_Fn", "MovesCast", 1, srcs=[11], allow_undef=True),
     "ty2": prof("MC_Focus", "MovesTy", 2, srcs=[1, 8, 4]),
     "err2": prof("MC_Focus", "MovesErr", 2, srcs=[1, 4]),
     "err3": prof("MC_Focus", "MovesErr", 3, srcs=[1]),
@@ -91,6 +93,16 @@ CHECKS = {
         clauses={"rows", "order", "names", "accept", "export-error", "cross-rows"},
         phases=dict(quick=[dict(kind="laws"), dict(profile="fn1")], thorough=[dict(kind="laws"), dict(profile="fn1")]),
     ),
+    "C17": dict(
+        level="model_checking",
+        clauses={"rows", "order", "names", "accept", "export-error", "cross-rows", "errclass", "cast-accept", "cast-internal"},
+        phases=dict(quick=[dict(kind="castmatrix"), dict(profile="cast1")], thorough=[dict(kind="castmatrix"), dict(profile="cast1")]),
+    ),
+    "C18": dict(
+        level="model_checking",
+        clauses={"rows", "order", "names", "accept", "export-error", "cross-rows"},
+        phases=dict(quick=[dict(profile="str1")], thorough=[dict(profile="str1")]),
+    ),
     "C04": dict(
         level="model_checking",
         clauses=GEN_CLAUSES_SPEC,
@@ -120,6 +132,13 @@ CHECKS = {
         phases=dict(quick=[dict(profile="ty2", opts=dict(roundtrip=True, targets=True)), dict(profile="core2", opts=dict(targets=True))],
                     thorough=[dict(profile="ty2", opts=dict(roundtrip=True, targets=True)), dict(profile="core2", opts=dict(roundtrip=True, targets=True)),
                               dict(profile="agg3", opts=dict(roundtrip=True, targets=True)), dict(profile="join2", opts=dict(targets=True))]),
+    ),
+    "C13": dict(
+        level="model_checking",
+        clauses={"resolve", "resolve-internal", "resolve-order", "sized-uniform", "const-accepted"},
+        phases=dict(quick=[dict(kind="resolve", max_arity=2)], thorough=[dict(kind="resolve", max_arity=3, timeout=6000)]),
+        rule="every (operator, argument-type tuple) over the 48-type universe up to the arity bound: TLC evaluates the order-free definition on the "
+             "extracted catalogue, the code's Operator.return_type / ColFn construction outcome is compared tuple by tuple; distinct = distinct tuples",
     ),
     "C14": dict(
         level="model_checking",
@@ -160,6 +179,16 @@ MANIFEST_TEXT = {
         clauses={"rows", "order", "names", "accept", "export-error", "cross-rows"},
         phases=dict(quick=[dict(kind="laws"), dict(profile="fn1")], thorough=[dict(kind="laws"), dict(profile="fn1")]),
     ),
+    "C17": dict(
+        level="model_checking",
+        clauses={"rows", "order", "names", "accept", "export-error", "cross-rows", "errclass", "cast-accept", "cast-internal"},
+        phases=dict(quick=[dict(kind="castmatrix"), dict(profile="cast1")], thorough=[dict(kind="castmatrix"), dict(profile="cast1")]),
+    ),
+    "C18": dict(
+        level="model_checking",
+        clauses={"rows", "order", "names", "accept", "export-error", "cross-rows"},
+        phases=dict(quick=[dict(profile="str1")], thorough=[dict(profile="str1")]),
+    ),
     "C04": dict(
         level="model_checking",
         clauses=GEN_CLAUSES_SPEC,
@@ -175,6 +204,16 @@ MANIFEST_TEXT = {
         level="model_checking",
         clauses={"rows", "order", "names", "accept", "export-error", "cross-rows"},
         phases=dict(quick=[dict(kind="laws"), dict(profile="fn1")], thorough=[dict(kind="laws"), dict(profile="fn1")]),
+    ),
+    "C17": dict(
+        level="model_checking",
+        clauses={"rows", "order", "names", "accept", "export-error", "cross-rows", "errclass", "cast-accept", "cast-internal"},
+        phases=dict(quick=[dict(kind="castmatrix"), dict(profile="cast1")], thorough=[dict(kind="castmatrix"), dict(profile="cast1")]),
+    ),
+    "C18": dict(
+        level="model_checking",
+        clauses={"rows", "order", "names", "accept", "export-error", "cross-rows"},
+        phases=dict(quick=[dict(profile="str1")], thorough=[dict(profile="str1")]),
     ),
     "C04": dict(
         text="TLC enumerates group_by / summarize pipelines over the aggregate focus alphabet (every aggregate, filter=, expressions over "
